@@ -8,10 +8,12 @@ use chrono_mc::lattice::*;
 use chrono_mc::refcal::*;
 use chrono_mc::reftz::*;
 use serde_json::json;
+use stateright::{Checker, Model, Property};
 use std::sync::mpsc;
 use std::time::{Instant, SystemTime, UNIX_EPOCH};
 
-const CLASSES: &[&str] = &["conversion", "stale_allowed", "reloaded", "fresh_thread", "second_thread", "fallback_zone", "file_zone", "rule_zone", "changed_within_window", "public_clock_replay"];
+const CLASSES: &[&str] = &["conversion", "stale_allowed", "reloaded", "fresh_thread", "second_thread", "fallback_zone", "file_zone", "rule_zone", "changed_within_window", "public_clock_replay", "other_system_zone"];
+const OTHERSYS: usize = 10;
 const CONV: usize = 0;
 const STALE: usize = 1;
 const RELOAD: usize = 2;
@@ -224,6 +226,9 @@ fn run_history(acc: &mut Acc, env: &Env, hist: &[usize], base_ns: u64, initial: 
                         } else {
                             acc.hit(CONV);
                             acc.hit(env.kind[cur]);
+                            if env.kind[cur] == FALLBACK && env.sig[0] != sig_of(&utc_zone()) && cur != 1 {
+                                acc.hit_nt(OTHERSYS);
+                            }
                             if fresh {
                                 acc.hit(FRESH);
                             }
@@ -266,7 +271,66 @@ fn count(len: usize) -> u64 {
     3 * (NEV as u64).pow(len as u32 - 1)
 }
 
+
+// ---- second engine: the same event system as a stateright model ------------------------------------------
+// A state is the event history reaching it (the real cache cannot be cloned, so every state is rebuilt by
+// re-executing its history on fresh threads of this process); `ok` is the verdict of the last event.
+#[derive(Clone, Debug, PartialEq, Eq, Hash)]
+struct HistState {
+    events: Vec<u8>,
+    ok: bool,
+}
+struct HistModel {
+    env: Env,
+    base_ns: u64,
+    depth: usize,
+}
+impl Model for HistModel {
+    type State = HistState;
+    type Action = u8;
+    fn init_states(&self) -> Vec<HistState> {
+        vec![HistState { events: vec![], ok: true }]
+    }
+    fn actions(&self, s: &HistState, out: &mut Vec<u8>) {
+        if s.events.len() < self.depth {
+            out.extend(0..NEV as u8);
+        }
+    }
+    fn next_state(&self, s: &HistState, a: u8) -> Option<HistState> {
+        let mut ev = s.events.clone();
+        ev.push(a);
+        let ok = if a >= 12 {
+            let h: Vec<usize> = ev.iter().map(|x| *x as usize).collect();
+            let mut acc = Acc::new(CLASSES.len(), 0);
+            let mut st = std::collections::BTreeSet::new();
+            run_history(&mut acc, &self.env, &h, self.base_ns, 0, false, &mut st);
+            acc.viol_total == 0
+        } else {
+            true
+        };
+        Some(HistState { events: ev, ok })
+    }
+    fn properties(&self) -> Vec<Property<Self>> {
+        vec![Property::<Self>::always("every conversion shows a zone the statement allows", |_, s| s.ok)]
+    }
+}
+
+fn stateright_main(depth: usize) -> ! {
+    let work = verif_dir().join("target").join("c18work");
+    let env = build_env(&work, false);
+    let _ = std::env::set_current_dir(work.join("cwd"));
+    let base_ns = SystemTime::now().duration_since(UNIX_EPOCH).unwrap().as_nanos() as u64 + 10_000_000_000;
+    let checker = HistModel { env, base_ns, depth }.checker().threads(1).spawn_bfs().join();
+    set_mock_now(None);
+    let found = checker.discovery("every conversion shows a zone the statement allows").map(|p| format!("{:?}", p.into_actions()));
+    println!("C18SR {}", json!({"unique_states": checker.unique_state_count(), "max_depth": checker.max_depth(), "counterexample": found}));
+    std::process::exit(0)
+}
+
 fn worker_main(spec_arg: &str, tier: Tier) -> ! {
+    if let Some(d) = spec_arg.strip_prefix("sr/") {
+        stateright_main(d.parse().unwrap_or(3));
+    }
     // "i/n/len/replay"
     let p: Vec<&str> = spec_arg.split('/').collect();
     let (i, n, maxlen): (u64, u64, usize) = (p[0].parse().unwrap(), p[1].parse().unwrap(), p[2].parse().unwrap());
@@ -352,12 +416,39 @@ fn main() {
             children.push((i, c));
         }
     }
+    // other system-zone configurations in private mount namespaces (skipped with a note if unshare is refused)
+    let mut ns_note: Vec<String> = vec![];
+    if only.is_none() {
+        let etc = work.join("etc");
+        let ns_len = if args.tier == Tier::Thorough { 4 } else { 3 };
+        for (cfg, setup) in [("localtime->Asia/Kolkata", "ln -sf /usr/share/zoneinfo/Asia/Kolkata $d/localtime; rm -f $d/timezone"), ("no /etc/localtime", "rm -f $d/localtime $d/timezone")] {
+            let nsp = 4u64;
+            let mut started = 0;
+            for i in 0..nsp {
+                let script = format!("d={}; mkdir -p $d && mount -t tmpfs tmpfs $d && cp -a /etc/. $d/ && {} && mount --bind $d /etc && exec {} --worker {}/{}/{} --tier {}", etc.display(), setup, exe.display(), i, nsp, ns_len, tier_s);
+                match std::process::Command::new("unshare").args(["-m", "sh", "-c", &script]).env_remove("TZ").stdout(std::process::Stdio::piped()).stderr(std::process::Stdio::piped()).spawn() {
+                    Ok(c) => {
+                        children.push((100 + i, c));
+                        started += 1;
+                    }
+                    Err(e) => ns_note.push(format!("{}: unshare could not be started ({})", cfg, e)),
+                }
+            }
+            if started > 0 {
+                ns_note.push(format!("{}: {} worker processes in a private mount namespace, all histories of length <= {}", cfg, started, ns_len));
+            }
+        }
+    }
     let mut acc = Acc::new(CLASSES.len(), 0);
     let mut all_states = std::collections::BTreeSet::new();
     for (i, c) in children {
         let out = c.wait_with_output().unwrap_or_else(|e| machinery(&format!("worker {}: {}", i, e)));
         let txt = String::from_utf8_lossy(&out.stdout);
         let Some(line) = txt.lines().find(|l| l.starts_with("C18WORKER ")) else {
+            if i >= 100 {
+                ns_note.push(format!("namespace worker {} gave no result (unshare/mount refused?): {}", i, String::from_utf8_lossy(&out.stderr).chars().take(160).collect::<String>()));
+                continue;
+            }
             machinery(&format!("worker {} produced no result (status {:?}): {}", i, out.status, String::from_utf8_lossy(&out.stderr).chars().take(400).collect::<String>()));
         };
         let v: serde_json::Value = serde_json::from_str(&line[10..]).unwrap_or_else(|e| machinery(&format!("worker {} output: {}", i, e)));
@@ -380,12 +471,30 @@ fn main() {
         acc.merge(a);
     }
     acc.states = all_states.len() as u64;
+    // second engine (stateright BFS over the same event system, in its own process)
+    let sr_depth = 3usize;
+    let mut second = json!({"skipped": "replay mode"});
+    if only.is_none() {
+        let out = std::process::Command::new(&exe).args(["--worker", &format!("sr/{}", sr_depth), "--tier", tier_s]).env_remove("TZ").output().unwrap_or_else(|e| machinery(&format!("cannot start the stateright worker: {}", e)));
+        let txt = String::from_utf8_lossy(&out.stdout);
+        let Some(line) = txt.lines().find(|l| l.starts_with("C18SR ")) else { machinery(&format!("stateright worker produced no result: {}", String::from_utf8_lossy(&out.stderr).chars().take(300).collect::<String>())) };
+        let v: serde_json::Value = serde_json::from_str(&line[6..]).unwrap_or_else(|e| machinery(&format!("stateright worker output: {}", e)));
+        // every event sequence of length <= depth is one state (histories are not merged), plus the empty one
+        let expect: u64 = (0..=sr_depth as u32).map(|k| (NEV as u64).pow(k)).sum();
+        let got = v["unique_states"].as_u64().unwrap_or(0);
+        if let Some(cx) = v["counterexample"].as_str() {
+            acc.violation("stateright:counterexample", format!("stateright BFS counterexample (event numbers): {}", cx), "no conversion outside the allowed zones".into(), "found".into());
+        } else if got != expect && acc.viol.is_empty() {
+            machinery(&format!("explorer self-check failed: stateright visited {} states, expected {}", got, expect));
+        }
+        second = json!({"engine": "stateright 0.31 spawn_bfs (1 thread: TZ is process-global)", "depth": sr_depth, "unique_states": got, "expected_event_sequences": expect, "histories_ending_in_a_conversion": (1..=sr_depth).map(count).sum::<u64>(), "counts_equal": got == expect});
+    }
     acc.samples.push(format!("history: TZ=\"AAA-3\"; convert@A; TZ=\":{}/ZoneA\"; +0.4s; convert@A (old or new zone); +1.0s; convert@A (must be New_York)", work.display()));
     let total: u64 = (1..=maxlen).map(count).sum();
     let extra = Extra {
         bounds: json!({"event_menu": NEV, "tz_settings": NTZ, "max_history_length": maxlen, "histories": total, "worker_processes": nproc, "initial_settings": 2, "system_zone": std::fs::read_link("/etc/localtime").map(|p| p.display().to_string()).unwrap_or_else(|_| "none".into())}),
         exhaustive: true,
-        more: vec![("exhaustive_over".into(), json!(format!("all event sequences of length <= {} that end in a conversion", maxlen)))],
+        more: vec![("exhaustive_over".into(), json!(format!("all event sequences of length <= {} that end in a conversion", maxlen))), ("second_engine".into(), second), ("system_zone_configurations".into(), json!(ns_note))],
     };
     finish(&spec, &args, start, acc, extra);
 }
